@@ -20,6 +20,7 @@ PEXPECT LICENSE
 
 """
 
+import errno
 import socket
 from contextlib import contextmanager
 
@@ -75,10 +76,17 @@ class SocketSpawn(SpawnBase):
             return
 
         self.flush()
-        self.socket.shutdown(socket.SHUT_RDWR)
-        self.socket.close()
-        self.child_fd = -1
-        self.closed = True
+        try:
+            self.socket.shutdown(socket.SHUT_RDWR)
+        except OSError as err:
+            # The peer may be gone already (connection reset): there is
+            # nothing left to shut down, but the socket still has to be closed.
+            if err.errno != errno.ENOTCONN:
+                raise
+        finally:
+            self.socket.close()
+            self.child_fd = -1
+            self.closed = True
 
     def isalive(self):
         """ Alive if the fileno is valid """
